@@ -40,6 +40,7 @@ type cnTxSpec struct {
 	Runtimes string `json:"runtimes,omitempty"` // regnode: "" (validator only) | "R0" | "R0,R1": compute role for these runtimes
 	Gov      string `json:"gov,omitempty"`      // regruntime: entity | runtime
 	Shape    string `json:"shape,omitempty"`    // regruntime: "g<workers>b<backups>m<max nodes per entity, 0 = unset>p<min pool: workers+this>v<validator-set constraint 0/1>s<allowed stragglers>"
+	Entity   string `json:"entity,omitempty"`   // regnode: register the node under this entity instead of its own
 	Sched    string `json:"sched,omitempty"`    // rhcommit: the scheduler whose proposal the commitment is for
 	Vote     string `json:"vote,omitempty"`     // rhcommit: A | B (result labels) | F (failure indicating)
 	VRoot    string `json:"vroot,omitempty"`    // rhcommit: the state root the vote carries (empty for F)
@@ -170,6 +171,11 @@ func (n *cnNet) buildTx(spec *cnTxSpec, rng *rand.Rand) ([]byte, error) {
 		}
 		rts := spec.Runtimes
 		nd, err := n.nodeDescriptor(idx, uint64(spec.Amount), func(nd *node.Node) {
+			if spec.Entity != "" {
+				var ei int
+				fmt.Sscanf(spec.Entity, "E%d", &ei)
+				nd.EntityID = n.vals[ei].ent.ID
+			}
 			if rts == "" {
 				return
 			}
